@@ -843,10 +843,11 @@ pub(crate) fn merge_trees(
     summary: &mut SnapshotSummary,
 ) -> RusticResult<TreeId> {
     // We store nodes with the index of the tree in an Binary Heap where we sort only by node name
+    // (the unescaped name: this is the order the nodes of a tree are sorted in)
     struct SortedNode(Node, usize);
     impl PartialEq for SortedNode {
         fn eq(&self, other: &Self) -> bool {
-            self.0.name == other.0.name
+            self.0.name() == other.0.name()
         }
     }
     impl PartialOrd for SortedNode {
@@ -857,7 +858,7 @@ pub(crate) fn merge_trees(
     impl Eq for SortedNode {}
     impl Ord for SortedNode {
         fn cmp(&self, other: &Self) -> Ordering {
-            self.0.name.cmp(&other.0.name).reverse()
+            self.0.name().cmp(&other.0.name()).reverse()
         }
     }
 
